@@ -14,6 +14,7 @@ ASSUMPTIONS = [
     "lower end of the job range >= lower end of the machine range (otherwise the generator cannot meet all clauses)",
     "'eligible machines are drawn from all M machines' is checked as reachability: over all RNG outcomes of a configuration every machine "
     "id below M must occur in some operation's machine list",
+    "names: default suffix and a 69-character suffix; generators producing 100000+ instances are outside the claim",
     "two generators with the same seed are built and consumed one after the other",
 ]
 STUBS = ["max", "min", "random (generator modules: seed, randint, choice)"]
@@ -64,6 +65,7 @@ def subspaces(tier):
         elif tier == "thorough" and nj != 3:
             out.append(dict(num_jobs=nj, num_machines=nm, mpo=1, less=True, recirc=False, mode="iter", n=2))
         out.append(dict(num_jobs=nj, num_machines=nm, mpo=1, less=True, recirc=False, mode="iter", n=1))
+        out.append(dict(num_jobs=nj, num_machines=nm, mpo=1, less=True, recirc=False, mode="iter", n=1, long_name=True))
         out.append(dict(num_jobs=nj, num_machines=nm, mpo=1, less=False, recirc=False, mode="explicit", n=1))
     for nj, nm, less in (([1, 2], 2, True), ([1, 3], [1, 2], False), ([2, 3], [2, 3], False), ([1, 2], [1, 3], True)):
         out.append(dict(num_jobs=nj, num_machines=nm, mpo=1, less=less, recirc=False, mode="explicit", n=1))
@@ -172,6 +174,8 @@ def _tup(x):
 def make(sp, seed, **kw):
     from job_shop_lib.generation import GeneralInstanceGenerator
 
+    if sp.get("long_name"):
+        kw = dict(kw, name_suffix="a_rather_long_but_perfectly_valid_name_suffix_for_generated_instances")
     return GeneralInstanceGenerator(num_jobs=_tup(sp["num_jobs"]), num_machines=_tup(sp["num_machines"]), duration_range=(1, 99),
                                     allow_less_jobs_than_machines=sp["less"], allow_recirculation=sp["recirc"],
                                     machines_per_operation=_tup(sp["mpo"]), seed=seed, **kw)
